@@ -973,3 +973,12 @@ def semiring_ops(cases):
         except Exception as e:
             base[nm] = "%s: %s" % (type(e).__name__, e)
     return {"results": out, "base": base}
+
+
+def prob_terms(text):
+    """Default inference; the answers are returned as (JSON term, probability) pairs."""
+    from problog.program import PrologString
+    from problog import get_evaluatable
+    from . import terms as T
+    res = get_evaluatable().create_from(PrologString(text)).evaluate()
+    return {"answers": [[T.from_problog(k, {}), float(v)] for k, v in res.items()]}
